@@ -1147,3 +1147,23 @@ mod superimpose_style_sections {
         }
     }
 }
+
+#[cfg(dandavison_delta_verif)]
+pub mod verif {
+    use super::*;
+
+    /// Entry point for the verification driver (the module is private).
+    pub fn superimpose(
+        syntax_style_sections: &[(SyntectStyle, &str)],
+        diff_style_sections: &[(Style, &str)],
+        true_color: bool,
+        null_syntect_style: SyntectStyle,
+    ) -> Vec<(Style, String)> {
+        superimpose_style_sections(
+            syntax_style_sections,
+            diff_style_sections,
+            true_color,
+            null_syntect_style,
+        )
+    }
+}
